@@ -2,6 +2,8 @@ import HeartwoodModel.Model.Issue
 import HeartwoodModel.Model.Patch
 import HeartwoodModel.Lemmas.Issue
 import HeartwoodModel.Lemmas.PatchKeys
+import HeartwoodModel.Lemmas.CobDag
+import HeartwoodModel.Props.C06
 set_option linter.unusedVariables false
 /-!
 # C07 — Issue and patch actions obey the authorization rules
@@ -326,6 +328,57 @@ theorem authorization_history {root : Op} {i0 : Issue} (h0 : fromRoot root = .ok
     exact (List.nodup_append.mp h2).2.2 _ hm' _ List.mem_cons_self rfl
   · exact hoid (List.mem_singleton.mp hm)
 
+/-! ## Issues — every change graph -/
+
+section Graph
+open HeartwoodModel.Dag HeartwoodModel.ChangeGraph
+
+/-- `Evaluate::init` for issues. -/
+def graphInit (o : Op) : Option Issue :=
+  match fromRoot o with
+  | .ok i => some i
+  | .error _ => none
+
+/-- **authorization_dag (issue)** — the property for the state produced by the real evaluation algorithm
+(`ChangeGraph::evaluate` as modelled in `Model/ChangeGraph.lean`) on EVERY well-formed acyclic change
+graph whose entries are named by their keys: the evaluation is the linear evaluation `eval i0 hist` of
+a list of validly signed entries of the graph, and every step of it respects the authorization rules. -/
+theorem authorization_dag {g g' : Dag Op} (hwf : g.Wf) (hac : Acyclic g.dependentsOf)
+    (hid : ∀ k n, g.get k = some n → n.value.id = k)
+    {sigOk : Op → Bool} {ts : Op → Nat} {fuel : Nat} {root : K} {i : Issue}
+    (h : evaluate sigOk ts graphInit issueApplyM fuel g root = .ok i g') :
+    ∃ (rootOp : Op) (i0 : Issue) (hist : List Op), (∃ rn, g.get root = some rn ∧ rn.value = rootOp) ∧
+      fromRoot rootOp = .ok i0 ∧ i = eval i0 hist ∧
+      (∀ o ∈ hist, ∃ k n, g.get k = some n ∧ n.value = o ∧ sigOk o = true) ∧
+      ∀ pre o post, hist = pre ++ o :: post →
+        StepRespectsAuth rootOp.author (eval i0 pre) o (step (eval i0 pre) o) := by
+  obtain ⟨rn, i0, calls, hr, hi, hn, hroot, hv, hs⟩ :=
+    evaluate_is_fold (stepf := step) (entryOf := fun c => c.2.1.value) hwf hac
+      (fun s k n sibs => by simp [issueApplyM]) h
+  have hi' : fromRoot rn.value = .ok i0 := by
+    unfold graphInit at hi
+    split at hi
+    · rename_i q hq; cases hi; exact hq
+    · cases hi
+  have hids : (calls.map fun c => c.2.1.value.id) = calls.map (·.1) := by
+    apply List.map_congr_left
+    intro c hc
+    obtain ⟨n0, h1, h2, _⟩ := hv c hc
+    rw [h2]; exact hid _ _ h1
+  refine ⟨rn.value, i0, calls.map (·.2.1.value), ⟨rn, hr, rfl⟩, hi', hs, ?_, ?_⟩
+  · intro o ho
+    obtain ⟨c, hc, rfl⟩ := List.mem_map.mp ho
+    obtain ⟨n0, h1, h2, h3⟩ := hv c hc
+    exact ⟨c.1, n0, h1, h2.symm, by rw [h2]; exact h3⟩
+  · intro pre o post hsplit
+    refine authorization_history hi' pre o post ?_
+    rw [← hsplit, List.map_map]
+    show (rn.value.id :: calls.map fun c => c.2.1.value.id).Nodup
+    rw [hids, hid _ _ hr]
+    exact List.nodup_cons.mpr ⟨hroot, hn⟩
+
+end Graph
+
 end HeartwoodModel.Issue
 
 namespace HeartwoodModel.Patch
@@ -649,5 +702,55 @@ theorem author_constant {p : Patch} (ops : List Op) : (eval p ops).author = p.au
       split at hop
       · cases hop
       · exact applyActions_author (p := { p with timeline := p.timeline ++ [o.id] }) _ hop
+
+/-! ## Patches — every change graph -/
+
+section Graph
+open HeartwoodModel.Dag HeartwoodModel.ChangeGraph
+
+/-- `Evaluate::init` for patches. -/
+def graphInit (o : Op) : Option Patch :=
+  match fromRoot o with
+  | .ok p => some p
+  | .error _ => none
+
+/-- **authorization_dag (patch)** — as for issues: on EVERY well-formed acyclic change graph whose
+entries are named by their keys, the state produced by the evaluator is `eval p0 hist` for a list of
+validly signed entries of the graph, and every step of that run respects the authorization rules. -/
+theorem authorization_dag {g g' : Dag Op} (hwf : g.Wf) (hac : Acyclic g.dependentsOf)
+    (hid : ∀ k n, g.get k = some n → n.value.id = k)
+    {sigOk : Op → Bool} {ts : Op → Nat} {fuel : Nat} {root : K} {p : Patch}
+    (h : evaluate sigOk ts graphInit patchApplyM fuel g root = .ok p g') :
+    ∃ (rootOp : Op) (p0 : Patch) (hist : List Op), (∃ rn, g.get root = some rn ∧ rn.value = rootOp) ∧
+      fromRoot rootOp = .ok p0 ∧ p = eval p0 hist ∧
+      (∀ o ∈ hist, ∃ k n, g.get k = some n ∧ n.value = o ∧ sigOk o = true) ∧
+      ∀ pre o post, hist = pre ++ o :: post →
+        StepRespectsAuth (eval p0 pre) o (step (eval p0 pre) o) := by
+  obtain ⟨rn, p0, calls, hr, hi, hn, hroot, hv, hs⟩ :=
+    evaluate_is_fold (stepf := step) (entryOf := fun c => c.2.1.value) hwf hac
+      (fun s k n sibs => by simp [patchApplyM]) h
+  have hi' : fromRoot rn.value = .ok p0 := by
+    unfold graphInit at hi
+    split at hi
+    · rename_i q hq; cases hi; exact hq
+    · cases hi
+  have hids : (calls.map fun c => c.2.1.value.id) = calls.map (·.1) := by
+    apply List.map_congr_left
+    intro c hc
+    obtain ⟨n0, h1, h2, _⟩ := hv c hc
+    rw [h2]; exact hid _ _ h1
+  refine ⟨rn.value, p0, calls.map (·.2.1.value), ⟨rn, hr, rfl⟩, hi', hs, ?_, ?_⟩
+  · intro o ho
+    obtain ⟨c, hc, rfl⟩ := List.mem_map.mp ho
+    obtain ⟨n0, h1, h2, h3⟩ := hv c hc
+    exact ⟨c.1, n0, h1, h2.symm, by rw [h2]; exact h3⟩
+  · intro pre o post hsplit
+    refine authorization_history hi' pre o post ?_
+    rw [← hsplit, List.map_map]
+    show (rn.value.id :: calls.map fun c => c.2.1.value.id).Nodup
+    rw [hids, hid _ _ hr]
+    exact List.nodup_cons.mpr ⟨hroot, hn⟩
+
+end Graph
 
 end HeartwoodModel.Patch
